@@ -24,7 +24,7 @@ COMP = "src/scenic/syntax/compiler.py"
 
 FIELDS = ["condsReversed", "handlersReversed", "useEnabled", "useRunning", "firstWins", "finishedContinues",
           "tiCheck", "tiCheckSkipsSub", "checkAfterInvoke", "checkBeforeInvoke", "startPre", "startInv",
-          "stopInFinally", "nestedFlow", "nestedNames"]
+          "stopInFinally", "nestedFlow", "nestedNames", "closeBlocks"]
 
 
 def _attr_of(node, base, attr=None):
@@ -82,6 +82,9 @@ def extract_runtime():
                and isinstance(f1.body[0], ast.Expr) and isinstance(f1.body[0].value, ast.Call)
                and isinstance(f1.body[0].value.func, ast.Attribute) and f1.body[0].value.func.attr == "close",
                "runTryInterrupt: finally does not close the blocks")
+        cl = get_def(get_def(tree, "InterruptBlock", INV), "close", INV)
+        cd = ast.dump(cl)
+        expect("runningIterator" in cd and "attr='close'" in cd, "InterruptBlock.close does not close the running iterator")
         closes_blocks = True
         loop = loop.body[0]
     expect(isinstance(loop, ast.While) and isinstance(loop.test, ast.Constant) and loop.test.value is True and not loop.orelse,
@@ -173,7 +176,7 @@ def extract_runtime():
     return {"useEnabled": "isEnabled" in names, "useRunning": "isRunning" in names, "firstWins": first_wins,
             "finishedContinues": finished_continues, "tiCheck": ti_check, "tiCheckSkipsSub": skips_sub,
             "startPre": "checkPreconditions" in calls, "startInv": "checkInvariants" in calls,
-            "_agentOk": agent_ok, "_enabledFirst": names[:1] == ["isEnabled"], "_closesBlocks": closes_blocks}
+            "_agentOk": agent_ok, "_enabledFirst": names[:1] == ["isEnabled"], "closeBlocks": closes_blocks}
 
 
 def _check_counter(tree):
@@ -195,12 +198,22 @@ def extract_behaviors():
     starts_check = "_checkAllPreconditions" in calls
     inner = get_def(tree, "Behavior._invokeInner", BEH)
     body = body_nodoc(inner)
-    # ... sub._start(agent); with veneer.executeInBehavior(sub): try: yield from sub._runningIterator finally: if sub._isRunning: sub._stop()
+    # ... sub._start(agent); try: yield from sub._runningIterator finally: if sub._isRunning: sub._stop()
+    # (before 0e4a55a4 the try statement was wrapped in `with veneer.executeInBehavior(sub):`; both shapes are accepted,
+    #  which of them is present is reported as `_holdsContextAcrossYields`)
     starts = [n for n in body if isinstance(n, ast.Expr) and isinstance(n.value, ast.Call) and _attr_of(n.value.func, "sub", "_start")]
     expect(len(starts) == 1, "_invokeInner: sub._start(agent)")
-    withs = [n for n in body if isinstance(n, ast.With)]
-    expect(len(withs) == 1 and body[-1] is withs[0] and len(withs[0].body) == 1, "_invokeInner: with executeInBehavior(sub)")
-    w = withs[0].body[0]
+    expect(len(starts[0].value.args) == 1 and is_name(starts[0].value.args[0], "agent") and not starts[0].value.keywords,
+           "_invokeInner: sub._start(agent) -- the sub-behaviour is not started for the invoking agent")
+    expect(body.index(starts[0]) == len(body) - 2, "_invokeInner: sub._start(agent) is not immediately followed by the last statement")
+    last = body[-1]
+    holds_ctx = isinstance(last, ast.With)
+    if holds_ctx:
+        expect(len(last.body) == 1 and len(last.items) == 1 and "executeInBehavior" in ast.dump(last.items[0]),
+               "_invokeInner: with executeInBehavior(sub)")
+        w = last.body[0]
+    else:
+        w = last
 
     def is_yf(n):
         return (isinstance(n, ast.Expr) and isinstance(n.value, ast.YieldFrom) and _attr_of(n.value.value, "sub", "_runningIterator"))
@@ -217,7 +230,7 @@ def extract_behaviors():
     else:
         expect(is_yf(w), "_invokeInner: yield from sub._runningIterator")
         stop = False
-    return {"stopInFinally": stop, "_startChecks": starts_check}
+    return {"stopInFinally": stop, "_startChecks": starts_check, "_holdsContextAcrossYields": holds_ctx}
 
 
 def extract_compiler():
@@ -344,7 +357,7 @@ def extract():
     if not bh["_startChecks"]:
         cfg["startPre"] = cfg["startInv"] = False
     expect(set(cfg) == set(FIELDS), "internal: field set")
-    extra = {"tiCheckPassesAgent": rt["_agentOk"] and cp["_emittedAgentOk"], "abandonedBlocksClosed": rt["_closesBlocks"]}
+    extra = {"tiCheckPassesAgent": rt["_agentOk"] and cp["_emittedAgentOk"]}
     return cfg, extra
 
 
@@ -359,8 +372,5 @@ def interruptCfg : Cfg :=
   {{ {fields} }}
 /-- the invariant re-check of runTryInterrupt and the check emitted by generateInvocation pass the agent -/
 def tiCheckPassesAgent : Bool := {b(extra['tiCheckPassesAgent'])}
-/-- runTryInterrupt closes the blocks that are still suspended when it is left (otherwise their
-    finalisation, which stops their sub-behaviours, is left to the garbage collector) -/
-def abandonedBlocksClosed : Bool := {b(extra['abandonedBlocksClosed'])}
 end Scenic.Gen
 """
